@@ -251,7 +251,7 @@ class C05(Check):
     HEADER = "From Verif Require Import C04.Model C05.Model."
     RUN = "run_case5"
     CASE_TYPE = "case5"
-    N_QUICK = 14          # programs; each explored over many schedules
+    N_QUICK = 10          # programs; each explored over many schedules
     N_THOROUGH = 120
     extra_dirs = ("C04",)
     RULE = ("programs of 2-3 threads x 1-3 calls (consume in 3 currencies with/without debt, regenerate, "
@@ -626,27 +626,41 @@ class C05(Check):
                         idx2[t] += 1
                         for rest in orders(idx2):
                             yield [t] + rest
+            wedged = False
             for order in orders([0] * len(threads)):
-                stores = C4._mk_stores(M, case["stores"])
-                if kind == "listener":
-                    fired = []
+                def one_order(order=order):
+                    stores = C4._mk_stores(M, case["stores"])
+                    if kind == "listener":
+                        fired = []
 
-                    def listener(state, fired=fired):
-                        if not fired:
-                            fired.append(1)
-                            raise RuntimeError("listener failed")
-                    stores[0].on_state_change = listener
-                pos = [0] * len(threads)
-                results = [[] for _ in threads]
-                for t in order:
-                    op = threads[t][pos[t]]
-                    pos[t] += 1
-                    try:
-                        r, e = C4._apply(M, stores, tuple(op)), None
-                    except Exception as ex:  # noqa
-                        r, e = None, ex
-                    results[t].append(ret_code(r, e))
-                ref.add(json.dumps([results, [C4._row(C4._snap(st))[:4] for st in stores]]))
+                        def listener(state, fired=fired):
+                            if not fired:
+                                fired.append(1)
+                                raise RuntimeError("listener failed")
+                        stores[0].on_state_change = listener
+                    pos = [0] * len(threads)
+                    results = [[] for _ in threads]
+                    for t in order:
+                        op = threads[t][pos[t]]
+                        pos[t] += 1
+                        try:
+                            r, e = C4._apply(M, stores, tuple(op)), None
+                        except Exception as ex:  # noqa
+                            r, e = None, ex
+                        results[t].append(ret_code(r, e))
+                    return json.dumps([results, [C4._row(C4._snap(st))[:4] for st in stores]])
+                try:
+                    ref.add(common.call_with_watchdog(one_order, 5.0))
+                except common.Hang:
+                    # even one after the other: a call made after the one that raised never returns
+                    self.violations.append(Violation(
+                        "C05/deadlock", f"{what}: the calls made ONE AFTER THE OTHER in thread order {order}: after a call raised "
+                        f"inside its critical section a later call never returned (store lock leaked)",
+                        case={"stores": [cfg, cfg], "threads": threads, "schedule": [], "sequential_order": order, "scenario": what}))
+                    wedged = True
+                    break
+            if wedged:
+                continue
             stack, seen = [[]], set()
             while stack and len(seen) < (40 if self.tier == "quick" else 300):
                 prefix = stack.pop()
